@@ -6,15 +6,65 @@ R-C05-3: every diagonal entry of a non-Dirichlet row is positive at the test poi
          (necessary for definiteness; decided on the exact tables, not on floating-point output).
 R-C05-4: the same two conditions for the operator of level 1, assembled from the LevelCache that the second constructor
          derives from the finer level's cache (the object setup() really uses on every coarser level), all cache flags.
-(The symmetry of the smoothers' line blocks before one-sided storage, R-C05-2, is checked with C06.)
+R-C05-2: the line blocks A_sc that the smoothers and the extrapolated smoothers assemble and factorise (read back from the
+         solver objects / CSR containers the builders filled, as C06 and C07 do) are symmetric on non-Dirichlet unknowns and
+         have positive diagonals, for give and take.  (That A_sc + A_ortho is the operator is C06's and C07's business.)
 """
-from gmg import dag, ir, opsdom, report, symdom, tab_ops
+from gmg import dag, ir, opsdom, report, symdom, tab_ops, tab_smoother
 
 
 def shapes(tier):
     if tier == "quick":
         return [(6, 8, 2, False), (6, 8, 3, True), (7, 4, 4, False), (5, 8, 0, True), (7, 12, 3, False)]
     return [(nr, nt, nsc, d) for nr, nt in ((5, 4), (6, 8), (7, 8), (9, 12)) for nsc in (0, 2, 3, nr) for d in (False, True)]
+
+
+def block_shapes(tier):
+    if tier == "quick":
+        return [(7, 8, 3, False), (7, 8, 3, True), (9, 8, 4, False)]
+    return [(7, 8, 3, False), (7, 8, 3, True), (9, 8, 4, False), (9, 8, 4, True), (7, 12, 3, False), (9, 8, 9, True), (7, 8, 0, False)]
+
+
+def line_blocks(ck, tier):
+    ck.rule("R-C05-2", "the line blocks the (extrapolated) smoothers factorise are symmetric on non-Dirichlet unknowns with positive diagonal (give and take)", floor=8)
+    prog = tab_smoother.load()
+    for u in prog.units:
+        if u not in ck.units:
+            ck.units.append(u)
+    kinds = [("SmootherGive", "Smoother", "smoothing", False), ("SmootherTake", "Smoother", "smoothing", False),
+             ("ExtrapolatedSmootherGive", "ExtrapolatedSmoother", "extrapolatedSmoothing", True),
+             ("ExtrapolatedSmootherTake", "ExtrapolatedSmoother", "extrapolatedSmoothing", True)]
+    for cls, base, fn, ext in kinds:
+        ck.analysed(prog.fn(cls + "::buildAscMatrices"))
+    for (nr, nt, nsc, dirbc) in block_shapes(tier):
+        S = tab_ops.Setting(prog, nr, nt, nsc, dirbc)
+        for cls, base, fn, ext in kinds:
+            sw = tab_smoother.Sweep(S, cls, base, fn, threads=1, extrapolated=ext)
+            key = "%s %s" % (cls, S.key())
+            ck.instance("R-C05-2", key)
+            bad = None
+            npairs = 0
+            for p, row in sw.Asc.items():
+                if S.dirichlet(p):
+                    continue
+                d = row.get(p)
+                if d is None or dag.sign_at_points(d) != {1}:
+                    bad = "diagonal entry of node %s is %s, not positive" % (S.rt(p), dag.show(d, 100) if d is not None else None)
+                    break
+                for q, a in row.items():
+                    if q is None or q == p or S.dirichlet(q):
+                        continue
+                    npairs += 1
+                    b = sw.Asc.get(q, {}).get(p, dag.ZERO)
+                    if not dag.equal(a, b):
+                        bad = "A_sc[%s,%s] = %s but A_sc[%s,%s] = %s" % (S.rt(p), S.rt(q), dag.show(a, 100), S.rt(q), S.rt(p), dag.show(b, 100))
+                        break
+                if bad:
+                    break
+            if bad:
+                ck.violation("R-C05-2", "%s:block" % cls, ir.locstr(prog.fn(cls + "::buildAscMatrices")), "%s: %s" % (key, bad))
+            else:
+                ck.ok("R-C05-2", key, sample={"smoother": cls, "shape": S.key(), "off-diagonal pairs compared": npairs} if cls == "SmootherGive" else None)
 
 
 def main(tier):
@@ -122,6 +172,7 @@ def main(tier):
                     ck.violation("R-C05-4", "%s:coarse-level" % cls, site, "%s: %s" % (key, bad))
                 else:
                     ck.ok("R-C05-4", key)
+    line_blocks(ck, tier)
     return ck.finish(
         "The residual operator (both strategies) is interpreted from source into an exact matrix over rational-function DAGs on "
         "representative grids (non-uniform spacings, antipodally paired angles, non-orthogonal geometry: all four Jacobian entries are "
